@@ -224,6 +224,9 @@ func (e *Engine) callSSA(caller *frame, th *Thread, fn *ssa.Function, args []Val
 			}
 		}
 		key := funcKey(fn)
+		if st, ok := e.cfg.Stubs[key]; ok && st != fn {
+			return e.callSSA(caller, th, st, args, nil)
+		}
 		if ic, ok := intercepts[key]; ok {
 			return ic(e, fr, args)
 		}
